@@ -86,7 +86,7 @@ def parse_query(text, fold_neg=False):
     return a
 
 
-def translate(query, backend="atlas", fresh=True, exe=None, keep_dir=None, quiet=True, fold_neg=False):
+def translate(query, backend="atlas", fresh=True, exe=None, keep_dir=None, quiet=True, fold_neg=False, twice=False):
     """query: source text or ast.AST.  Returns Package or raises TranslationRaised.
 
     fresh=True wipes the global registries and creates a new executor (one 'fresh
@@ -101,6 +101,13 @@ def translate(query, backend="atlas", fresh=True, exe=None, keep_dir=None, quiet
     d = Path(tempfile.mkdtemp(prefix="pkg", dir=scratch_root())) if keep_dir is None else Path(keep_dir)
     try:
         try:
+            if twice:
+                # the package under analysis is the one the SAME executor object gives for its second query (same text)
+                d0 = Path(tempfile.mkdtemp(prefix="pkg0", dir=scratch_root()))
+                try:
+                    exe.write_cpp_files(exe.apply_ast_transformations(parse_query(query, fold_neg) if isinstance(query, str) else query), d0)
+                finally:
+                    shutil.rmtree(d0, ignore_errors=True)
             a2 = exe.apply_ast_transformations(a)
             info = exe.write_cpp_files(a2, d)
         except Exception as e:  # noqa: BLE001  (CrossHair control flow is BaseException)
@@ -108,7 +115,7 @@ def translate(query, backend="atlas", fresh=True, exe=None, keep_dir=None, quiet
         files, modes = {}, {}
         for p in sorted(d.iterdir()):
             if p.is_file():
-                files[p.name] = p.read_text()
+                files[p.name] = p.read_text(encoding="utf-8", errors="surrogateescape")
                 modes[p.name] = p.stat().st_mode & 0o777
         return Package(backend, files, info, modes)
     finally:
